@@ -32,6 +32,11 @@ impl vstd::std_specs::cmp::PartialEqSpecImpl for Value {
 }
 impl PartialEq for Value { #[verifier::external_body] fn eq(&self, other: &Value) -> (r: bool) { unimplemented!() } }
 
+// derived PartialEq of BigNum(u64) = equality of the number (ASSUMED for the derive, like the order below)
+impl vstd::std_specs::cmp::PartialEqSpecImpl for BigNum {
+    open spec fn obeys_eq_spec() -> bool { true }
+    open spec fn eq_spec(&self, other: &BigNum) -> bool { self.0 == other.0 }
+}
 // derived Ord of BigNum(u64) = integer order
 impl vstd::std_specs::cmp::PartialOrdSpecImpl for BigNum {
     open spec fn obeys_partial_cmp_spec() -> bool { true }
